@@ -466,6 +466,8 @@ class Ctx:
         self.notes = {}           # harness scratch (RNG log, captured problems ...)
         self.max_concretize = 64
         self.assumptions = 0
+        self.decided = {}
+        self._keep = []           # keeps decided terms alive so their ids are not reused
 
     # -- symbols
     def fresh(self, base, lo=None, hi=None, integer=False):
@@ -533,6 +535,10 @@ class Ctx:
             return True
         if z3.is_false(e):
             return False
+        # a condition already decided on this path (hash-consed term id) needs no solver and no new fork
+        eid = e.get_id()
+        if eid in self.decided:
+            return self.decided[eid]
         self.stats["sym_decisions"] += 1
         i = len(self.trace)
         if i < len(self.prefix):
@@ -568,6 +574,10 @@ class Ctx:
                     raise PathAbort()
         self.trace.append(v)
         self.solver.add(e if v else z3.Not(e))
+        self.decided[eid] = v
+        self._keep.append(e)
+        if z3.is_not(e):
+            self.decided[e.arg(0).get_id()] = not v
         return v
 
     def choose(self, n, tag="choice"):
